@@ -272,7 +272,16 @@ pub fn splice(toks: &[api::PTok], occs: &[api::Occ]) -> Result<String, String> {
 
 /// pick a text for the text-level monitors: hostile text, annotator-state text or a linking sentence
 pub fn workload_text(rng: &mut crate::rng::Rng, lex: &Lexicon, max_words: usize) -> String {
-    match rng.below(10) {
+    match rng.below(11) {
+        10 => {
+            // a complete spelled number of any size (the 65-byte German words included) inside a short sentence, in random case
+            let n = crate::gen::random_number(rng, 12);
+            let vs = crate::spell::cardinal_variants(lex.code, n);
+            let vi = rng.usize(vs.len());
+            let p = crate::gen::random_case(rng, &vs[vi].text);
+            let f = pick_fillers(rng, lex);
+            format!("{} {} {}", f[0], p, f[1])
+        }
         0..=4 => crate::gen::hostile_text(rng, lex, max_words),
         5 | 6 => crate::gen::linking_sentence(rng, lex, max_words),
         7 => {
